@@ -30,6 +30,9 @@ impl InstructionGenerator {
         // the blocks must not run without the value on the stack
         self.mark_statement_address();
         self.push(Instruction::PushAToValueStack, pos);
+        // from here on the value belongs to the statement: an error in a
+        // CASE expression must not drop it
+        self.mark_statement_address();
     }
 
     fn generate_case_blocks(&mut self, case_blocks: Vec<CaseBlock>, has_else: bool, pos: Position) {
